@@ -59,12 +59,15 @@ def run(cfg, all_checks, tier, seed, repo, replay_dir):
         ns = int(all_checks[d].get('shards', {}).get('quick', 1))
         for k in range(ns):
             jobs.append((d, 'asan', 'asan-c1d0', {}, k, ns))
+            if tier == 'thorough':
+                for xv in cfg.get('extra_asan_variants', {}).get(d, []):
+                    jobs.append((d, 'asan_' + xv, xv, {}, k, ns))     # further compile-time configurations under the sanitizers
             for n in (FILLS if tier == 'thorough' else FILLS_QUICK):
                 jobs.append((d, 'fill%d' % n, 'plain-c1d0', {'GLIBC_TUNABLES': 'glibc.malloc.tcache_count=0:glibc.malloc.perturb=%d' % n}, k, ns))
             if d in cfg.get('stack_fill_delegates', []):
                 jobs.append((d, 'stack-zero', 'init0-c1d0', {}, k, ns))
                 jobs.append((d, 'stack-pattern', 'initP-c1d0', {}, k, ns))
-    jobs.sort(key=lambda j: 0 if j[1] == 'asan' else 1)     # the slow sanitizer runs first
+    jobs.sort(key=lambda j: 0 if j[1].startswith('asan') else 1)     # the slow sanitizer runs first
     # build everything first
     exes = {}
     for d, mode, variant, env, _k, _ns in jobs:
@@ -88,11 +91,11 @@ def run(cfg, all_checks, tier, seed, repo, replay_dir):
         env['VERIF_DIR'] = VERIF
         env['VERIF_KNOWN_KEYS'] = '\n'.join(k.get('key', '') for k in known_all if k.get('property') == d and k.get('status') == 'known')
         env['VERIF_MONITOR'] = '1'      # delegates do not cut a history short at their own (functional) violations: the monitors watch what the code does next
-        if mode == 'asan':
+        if mode.startswith('asan'):
             env['ASAN_OPTIONS'] = 'detect_leaks=0:abort_on_error=0:log_path=%s' % logp
             env['UBSAN_OPTIONS'] = 'print_stacktrace=1:log_path=%s' % logp
         cmd = [exe, '--tier', 'quick', '--seed', str(seed), '--out', out, '--replaydir', replay_dir, '--variant', variant,
-               '--deadline', str(deadline * (3 if mode == 'asan' else 1)), '--repo', repo, '--shard', str(shard), '--nshards', str(nshards)]
+               '--deadline', str(deadline * (3 if mode.startswith('asan') else 1)), '--repo', repo, '--shard', str(shard), '--nshards', str(nshards)]
         try:
             subprocess.run(cmd, cwd=VERIF, env=env, stdout=subprocess.PIPE, stderr=subprocess.PIPE, text=True, errors='replace', timeout=deadline * 8 + 120)
         except subprocess.TimeoutExpired:
@@ -106,7 +109,7 @@ def run(cfg, all_checks, tier, seed, repo, replay_dir):
             os.remove(out)
         if os.path.exists(out + '.distinct'):
             os.remove(out + '.distinct')
-        reports = asan_summary(logp) if mode == 'asan' else []
+        reports = asan_summary(logp) if mode.startswith('asan') else []
         return job, res, None, reports
 
     with ThreadPoolExecutor(max_workers=int(cfg.get('parallel', 12))) as ex:
@@ -128,7 +131,7 @@ def run(cfg, all_checks, tier, seed, repo, replay_dir):
             if 'not_compared' in prev:
                 cur['not_compared'] = prev['not_compared']
         entry[mode] = cur
-        if mode == 'asan':
+        if mode.startswith('asan'):
             total_states += cov.get('states', 0) or 0
             total_trans += cov.get('transitions', 0) or 0
             for kind, frame, text in reports:
@@ -139,7 +142,7 @@ def run(cfg, all_checks, tier, seed, repo, replay_dir):
                 if crashes and os.path.exists(crashes[0].get('replay', '')):
                     body = open(crashes[0]['replay']).read()
                 with open(path, 'w') as f:
-                    f.write('variant=asan-c1d0\ntier=%s\nproperty=C10\ndelegate=%s\nkey=%s\n' % (tier, d, key))
+                    f.write('variant=%s\ntier=%s\nproperty=C10\ndelegate=%s\nkey=%s\n' % (variant, tier, d, key))
                     f.write('what=' + text.splitlines()[1][:300] + '\n' if len(text.splitlines()) > 1 else '')
                     f.write('--- delegate case ---\n' + body + '\n--- sanitizer report ---\n' + text)
                 violations.append({'key': key, 'what': 'driver %s under ASan+UBSan: %s, first repository frame %s' % (d, kind, frame), 'replay': path})
@@ -155,7 +158,7 @@ def run(cfg, all_checks, tier, seed, repo, replay_dir):
                 entry[mode]['not_compared'] = 'run capped by its deadline or crashed'
     for d, entry in coverage['delegates'].items():
         for mode, e in entry.items():
-            if mode != 'asan' and 'not_compared' not in e:
+            if not mode.startswith('asan') and 'not_compared' not in e:
                 digests.setdefault(d, {})[mode] = (e['digest'], e['states'], e['transitions'])
     compared = 0
     groups = []
